@@ -386,6 +386,9 @@ pub struct CrashSpec {
 
 #[derive(Serialize, Deserialize, Clone, Debug, Default)]
 pub struct UserMapSpec {
+    /// the caller left `system_mapping_info` zeroed (only base and size describe the range)
+    #[serde(default)]
+    pub sysinfo_zeroed: bool,
     pub start: u64,
     pub size: u64,
     pub offset: u64,
